@@ -11,6 +11,7 @@ import (
 	"time"
 
 	"github.com/honeycombio/refinery/internal/verifkit"
+	"github.com/honeycombio/refinery/types"
 )
 
 // C22: event timestamps are preserved exactly.
@@ -282,7 +283,7 @@ func c22Judge(run *verifkit.Run, carrier string, st c22Stamp, got time.Time, wit
 func TestVerif_C22(t *testing.T) {
 	run := verifkit.Start(t, "C22", "route")
 	defer run.Finish()
-	run.Rule("per case one request carrying 1-5 events whose instants are drawn from 2001-09-09..2286-11-20 (10-digit epoch seconds; boundaries 10^9, 10^10-1, 2^31, 2^32, 2^33, MaxInt64 ns, plus uniform and recent values) with fractions of 0/3/6/9 (epoch) or 1-9 (RFC3339Nano) digits biased to 0, 1, max, half; rendered as RFC3339 / RFC3339Nano with zone offsets, 10/13/16/19-digit epochs in X-Honeycomb-Event-Time (/1/events JSON+msgpack) or a /1/batch JSON `time` string, or msgpack timestamp 32/64/96 in a /1/batch msgpack `time`; events without trace ID additionally travel through a real DirectTransmission to a fake Honeycomb whose body is decoded independently; then a concurrent phase: per case 6-16 goroutines each post 2-4 JSON batches (1-8 events, padded to different lengths, RFC3339 and digit-epoch time strings, some gzip/zstd) to the same router at the same moment, each event judged against its own instant and a mismatch replayed alone; non-trivial = instant with a sub-second part or on a boundary, or a concurrent round; distinct = (carrier, format, boundary/fraction class)")
+	run.Rule("per case one request carrying 1-5 events whose instants are drawn from 2001-09-09..2286-11-20 (10-digit epoch seconds; boundaries 10^9, 10^10-1, 2^31, 2^32, 2^33, MaxInt64 ns, plus uniform and recent values) with fractions of 0/3/6/9 (epoch) or 1-9 (RFC3339Nano) digits biased to 0, 1, max, half; rendered as RFC3339 / RFC3339Nano with zone offsets, 10/13/16/19-digit epochs in X-Honeycomb-Event-Time (/1/events JSON+msgpack) or a /1/batch JSON `time` string, or msgpack timestamp 32/64/96 in a /1/batch msgpack `time` (40% of the batch requests also carry an unrelated X-Honeycomb-Event-Time header, which must not replace per-event times); events without trace ID additionally travel through a real DirectTransmission to a fake Honeycomb whose body is decoded independently; then a concurrent phase: per case 6-16 goroutines each post 2-4 JSON batches (1-8 events, padded to different lengths, RFC3339 and digit-epoch time strings, some gzip/zstd) to the same router at the same moment, each event judged against its own instant and a mismatch replayed alone; non-trivial = instant with a sub-second part or on a boundary, or a concurrent round; distinct = (carrier, format, boundary/fraction class)")
 	run.Assume("Event.Timestamp handed to Collector.AddSpan / Transmission.EnqueueEvent is what Refinery forwards; the wire leg is checked for upstream events only")
 	run.Assume("RFC3339 inputs use upper-case T/Z, no leap seconds, at most 9 fractional digits")
 
@@ -339,6 +340,13 @@ func TestVerif_C22(t *testing.T) {
 		}
 		if err != nil {
 			t.Fatalf("harness: encode: %v", err)
+		}
+		if strings.HasPrefix(carrier, "batch") && rng.Chance(0.4) {
+			// a client or proxy that stamps X-Honeycomb-Event-Time on every request: the
+			// header is only meaningful for /1/events; each batch event carries its own
+			// time, which is what must be forwarded
+			req.Set(types.TimestampHeader, c22Text(t, rng.Fork("hdr")).Text)
+			run.Count("batch_requests_with_event_time_header", 1)
 		}
 		b.Log.Reset()
 		resp := b.Serve(req)
